@@ -601,6 +601,24 @@ pub fn run(prop: u8, tier: &str) -> Report {
         let (n, v) = extra_c09(tier);
         extra_lists = n;
         g.sink.extend(v);
+        let (n, longest, v) = crate::checks::longlists::uncompact_long(tier);
+        g.sink.extend(v);
+        rep.set("long_lists_evaluated", json!(n));
+        rep.set("longest_list", json!(longest));
+        let (n, v) = crate::checks::longlists::uncompact_repeats(tier);
+        g.sink.extend(v);
+        rep.set("lists_with_repeats_evaluated", json!(n));
+        let (n, v) = crate::checks::longlists::big_uncompact(tier);
+        g.sink.extend(v);
+        rep.set("expansions_above_4^8_per_input", json!(n));
+    } else {
+        let (n, longest, v) = crate::checks::longlists::compact_runs(prop, tier);
+        g.sink.extend(v);
+        rep.set("long_run_inputs_evaluated", json!(n));
+        rep.set("longest_list", json!(longest));
+        let (n, v) = crate::checks::longlists::compact_alias(prop, tier);
+        g.sink.extend(v);
+        rep.set("stride_alias_sets_evaluated", json!(n));
     }
     let (viols, _) = g.sink.drain();
     rep.sink.extend(viols);
@@ -611,7 +629,7 @@ pub fn run(prop: u8, tier: &str) -> Report {
     rep.set("evaluations", json!(g.evaluated.load(Ordering::Relaxed) + subsets));
     rep.set("distinct_nontrivial", json!(g.aperture_states.load(Ordering::Relaxed)));
     rep.set("rule", json!(format!(
-        "stateright BFS of the cell-set machine (Split/Drop/AddAncestor/Dup through real cell_to_children/cell_to_parent) from {} initial states, max resolution {}, list length <= {}, depth <= {} (depth is part of the state key); oracle on every state; plus all 2^|U| subsets of {} universes; distinct_nontrivial = states mixing the 12/5 aperture levels with other resolutions",
+        "stateright BFS of the cell-set machine (Split/Drop/AddAncestor/Dup through real cell_to_children/cell_to_parent) from {} initial states, max resolution {}, list length <= {}, depth <= {} (depth is part of the state key); oracle on every state; plus all 2^|U| subsets of {} universes; plus structured long inputs (see long_* keys: every run [a,b) of 4096-leaf universes with a,b around the powers of 2 and 4, in leaf form and in mixed-resolution forms, ascending and reordered; sets aliasing a sibling group modulo m*4^k; length ladder 255..4097 x position patterns; all short lists with repeats); distinct_nontrivial = states mixing the 12/5 aperture levels with other resolutions",
         m.inits.len(), max_res, max_len, max_depth, universes(tier).len())));
     rep.set("exhaustive", json!((checker.state_count() as usize) < cap));
     rep.set("state_cap", json!(cap));
@@ -631,6 +649,9 @@ pub fn run(prop: u8, tier: &str) -> Report {
 }
 
 pub fn replay(prop: u8, case: &Value) -> Vec<Viol> {
+    if let Some(v) = crate::checks::longlists::replay(case) {
+        return v;
+    }
     let cells: Vec<u64> = case["cells"].as_array().map(|a| a.iter().map(|x| u64::from_str_radix(x.as_str().unwrap(), 16).unwrap()).collect()).unwrap_or_default();
     match prop {
         8 => oracle_c08(&cells, true),
